@@ -174,15 +174,20 @@ func resolveMarker(marker string, extras []string, fromTop bool) (o obs) {
 	if g.Error != "" {
 		return obs{Err: "graph: " + g.Error}
 	}
+	return edgeObs(g, "root", "dep")
+}
+
+// edgeObs looks for the edge root->dep among the nodes of the given names.
+func edgeObs(g *resolve.Graph, root, dep string) obs {
 	rootID, depID := -1, -1
 	for i, n := range g.Nodes {
 		switch n.Version.Name {
-		case "root":
+		case root:
 			if rootID >= 0 {
 				return obs{Shape: "two root nodes"}
 			}
 			rootID = i
-		case "dep":
+		case dep:
 			if depID >= 0 {
 				return obs{Shape: "two dep nodes"}
 			}
@@ -202,6 +207,62 @@ func resolveMarker(marker string, extras []string, fromTop bool) (o obs) {
 		return obs{Shape: "dep node without root->dep edge"}
 	}
 	return obs{Edge: edge}
+}
+
+// sharedResolver is ONE pypi resolver over one client holding the universes
+// of many markers (top<i> -> root<i>[extras], root<i> -> dep<i> ; marker_i).
+// A caller that resolves many packages keeps its resolver, and the resolver
+// keeps caches (parsed markers, constraints) between Resolve calls; a marker
+// must get the same verdict whatever was resolved before.
+type sharedResolver struct {
+	cc  *countClient
+	res resolve.Resolver
+}
+
+func newSharedResolver(cases []markerCase, idx []int) *sharedResolver {
+	lc := resolve.NewLocalClient()
+	for _, i := range idx {
+		c := cases[i]
+		var te dep.Type
+		if len(c.Extras) > 0 {
+			te.AddAttr(dep.EnabledDependencies, strings.Join(c.Extras, ","))
+		}
+		var tm dep.Type
+		tm.AddAttr(dep.Environment, c.Marker)
+		n := fmt.Sprint(i)
+		lc.AddVersion(resolve.Version{VersionKey: vk("dep"+n, "1.0", resolve.Concrete)}, nil)
+		lc.AddVersion(resolve.Version{VersionKey: vk("root"+n, "1.0", resolve.Concrete)},
+			[]resolve.RequirementVersion{{VersionKey: vk("dep"+n, "", resolve.Requirement), Type: tm}})
+		lc.AddVersion(resolve.Version{VersionKey: vk("top"+n, "1.0", resolve.Concrete)},
+			[]resolve.RequirementVersion{{VersionKey: vk("root"+n, "", resolve.Requirement), Type: te}})
+	}
+	cc := &countClient{c: lc, max: stepBudget, cancel: func() {}}
+	return &sharedResolver{cc: cc, res: pypi.NewResolver(cc)}
+}
+
+// resolve resolves top<i> on the shared resolver (calls are sequential).
+func (s *sharedResolver) resolve(i int) (o obs) {
+	defer func() {
+		if p := recover(); p != nil {
+			o = obs{Panic: fmt.Sprint(p)}
+		}
+	}()
+	ctx, cancel := context.WithCancel(context.Background())
+	defer cancel()
+	s.cc.n.Store(0)
+	s.cc.cancel = cancel
+	n := fmt.Sprint(i)
+	g, err := s.res.Resolve(ctx, vk("top"+n, "1.0", resolve.Concrete))
+	if s.cc.n.Load() > s.cc.max {
+		return obs{Budget: true}
+	}
+	if err != nil {
+		return obs{Err: err.Error()}
+	}
+	if g.Error != "" {
+		return obs{Err: "graph: " + g.Error}
+	}
+	return edgeObs(g, "root"+n, "dep"+n)
 }
 
 // probeCandidates are values the probe tries besides the one in env.gen.go.
